@@ -158,8 +158,8 @@ def check(ctx):
     try:
         R = A.runner(prog)
         ctx.touch(R)
-        runs_ = lib.call_blocks(R, lib.ends(A.TABLE["callback_run"]))
-        setups = [b for b, t, fr in R.calls_named(lambda n: lib.tail(n, 2).endswith("Setup::run")) if lib.originates_from_arg(R, R.blocks[b]["term"]["args"][0], 3)
+        runs_ = lib.call_blocks(R, lib.ends(A.names(prog)["callback_run"]))
+        setups = [b for b, t, fr in R.calls_named(lambda n: lib.tail(n, 2) == A.names(prog)["setup_run"]) if lib.originates_from_arg(R, R.blocks[b]["term"]["args"][0], 3)
                   and any(R.dominates(b, r) for r in runs_)]
         bad = []
         for s in setups:
@@ -287,10 +287,11 @@ def indirect_calls(body):
 
 def carriers(ctx, prog):
     try:
-        crun = A.method(prog, "SystemCommandCleanup", "run")
-        cnew = A.method(prog, "SystemCommandCleanup", "new")
-        srun = A.method(prog, "SystemCommandSetup", "run")
-        snew = A.method(prog, "SystemCommandSetup", "new")
+        R_ = A.runner(prog)
+        st_name = re.sub(r"<.*$", "", R_.local_ty(3)).split("::")[-1] if R_.arg_count >= 4 else "SystemCommandSetup"
+        ct_name = re.sub(r"<.*$", "", R_.local_ty(4)).split("::")[-1] if R_.arg_count >= 4 else "SystemCommandCleanup"
+        crun, cnew = A.carrier_methods(prog, ct_name)
+        srun, snew = A.carrier_methods(prog, st_name)
     except mir.AnchorLost as e:
         ctx.fail("C04.b", "anchor-lost:setup/cleanup carriers", "", str(e))
         return
